@@ -260,7 +260,7 @@ def run_unit(path, repo=None, with_vac=True):
     res['cmd'] = ' '.join(cmd)
     res['verus_s'] = round(dt, 2)
     vr = (js or {}).get('verification-results') if js else None
-    if not vr or vr.get('encountered-vir-error') or ('verified' not in vr):
+    if not vr or vr.get('encountered-vir-error') or ('verified' not in vr) or (vr.get('encountered-error') and not vr.get('verified') and not vr.get('errors')):
         res['status'] = 'undecided'
         msgs = [d['message'] for d in errs][:5]
         res['reason'] = 'verus did not reach verification (unsupported construct or type error after the change): ' + ' | '.join(msgs)
@@ -280,7 +280,7 @@ def run_unit(path, repo=None, with_vac=True):
         ccmd, crc, cjs, cerrs, cdt, cstderr = fut.result()
         res['case_times_s'].append(round(cdt, 1))
         cvr = (cjs or {}).get('verification-results') if cjs else None
-        if not cvr or cvr.get('encountered-vir-error') or ('verified' not in cvr):
+        if not cvr or cvr.get('encountered-vir-error') or ('verified' not in cvr) or (cvr.get('encountered-error') and not cvr.get('verified') and not cvr.get('errors')):
             res['status'] = 'undecided'
             res['reason'] = 'case variant %d did not reach verification: %s' % (j, ' | '.join(d['message'] for d in cerrs[:3]))
             continue
@@ -311,7 +311,7 @@ def run_unit(path, repo=None, with_vac=True):
         want = sorted(set(o['item'] for o in vmap if o.get('k') == 'vac'))
         got = set()
         vvr = (vjs or {}).get('verification-results') if vjs else None
-        if not vvr or vvr.get('encountered-vir-error'):
+        if not vvr or vvr.get('encountered-vir-error') or (vvr.get('encountered-error') and not vvr.get('verified') and not vvr.get('errors')):
             res['status'] = 'undecided'
             res['reason'] = 'vacuity variant did not verify: ' + ' | '.join(d['message'] for d in verrs[:3])
         else:
@@ -490,8 +490,8 @@ def main():
             'known_findings_reported': [k['what'] for _, k in knownhits],
             'not_decided': spec.get('not_decided', []),
             'builds_on': spec.get('depends', []),
-            'bounded': spec.get('bounded', []) + ['%s: %s -- bound: %s -- %s (Kani, never counted as proved)' % (h['id'], h['claim'], h['bound'], h['status'])
-                                                   for e in extra for h in e.get('harnesses', []) if h['kind'] == 'bounded'],
+            'bounded': spec.get('bounded', []) + ['%s: %s -- bound: %s -- %s (%s, never counted as proved)' % (h['id'], h['claim'], h['bound'], h['status'], 'exhaustive native enumeration, %s executions' % h.get('executions') if h['kind'] == 'enum' else 'Kani/CBMC')
+                                                   for e in extra for h in e.get('harnesses', []) if h['kind'] in ('bounded', 'enum')],
             'undecided': [{'unit': r['unit'], 'reason': r['reason']} for r in undecided],
         },
         'assumptions': spec.get('assumptions', []),
